@@ -18,6 +18,29 @@ CHECKS = {
         'within the stated bound; a bounded exhaustive check is the right level because the tokenizer is a pure function of a short window of characters.',
         'Trusted: the reference decoder/position model in mc/model/ref_escape.py and the token spelling menu; one representative per character class; BOM counted as zero-width.',
     ),
+    'C07': (
+        'model_checking',
+        'explicit-state search over chunk schedules of the real incremental/stream codec objects (closure over canonical states = all partitions), plus exhaustive detection tables against a CSS 2.1 4.4 reference',
+        'DESIGN.md 3/C07',
+        'For every (text, encoding, mode) of the stated menus a breadth-first search feeds the real IncrementalDecoder / IncrementalEncoder / '
+        'StreamReader / StreamWriter every possible next chunk and merges states on (position, buffers, chosen encoding, header flag, inner codec '
+        'state, output); closure of that search covers all 2^(n-1) partitions of the input. Every terminal state is compared with a reference '
+        'one-shot result; detectencoding_str is compared on all byte strings of length <=4 over the 11 byte classes it distinguishes, including '
+        'that an early answer is never contradicted by any completion. Model checking is the right level because the property quantifies over '
+        'schedules of a small state machine.',
+        'Trusted: Python\'s own codecs; mc/model/ref_detect.py (typed from the CSS 2.1 table); the text/encoding menus. Early "unknown yet" answers with sufficient data are not judged.',
+    ),
+    'C01': (
+        'exploration',
+        'bounded exhaustive enumeration of token sequences x parser contexts x parser options, byte inputs, import graphs and nesting/flat size families, with a crash/termination/work-counter oracle',
+        'DESIGN.md 3/C01',
+        'All sequences of <=2 (quick) / <=3 (thorough) token spellings from a 70-symbol alphabet chosen per parser branch (plus depth 3 / 4 over '
+        'smaller cores), each embedded in 12 parser contexts under all parseComments x validate settings, are parsed, serialised, reparsed and '
+        'reserialised by the real entry points under a watchdog; all byte strings <=3 over 11 byte classes behind 9 BOM/@charset prefixes x 4 encoding '
+        'arguments; every @import graph over <=3 virtual sheets x 5 fetcher behaviours; 22 nesting/flat families measured with a deterministic call '
+        'counter against a degree-4 bound up to n=14/24 (nesting), 64/256 (flat) and once at depth 100. Exhaustive within these bounds.',
+        'Trusted: the token alphabet/contexts reach the parser states that matter (vacuity guard: distinct log-message kinds and outcome classes); work is counted in Python calls, not seconds.',
+    ),
 }
 
 PENDING = {}
